@@ -45,7 +45,7 @@ Lemma roundtrip_gen alt v :
   plain v = true -> (alt = true -> char_free v = true) ->
   to_object_gen alt (to_interface v) = Ok v.
 Proof.
-  induction v as [ | b | z | z | f | z | s | s | l IH | m IH | m IH | n m | n m | i | t p ]
+  induction v as [ | b | z | z | f | z | s | s | l IH | m IH | m IH | i n m | i e n m | i | t p ]
     using pvalue_ind'; intros Hp Hc; try reflexivity; try discriminate Hp.
   - (* Char *) simpl. destruct alt; [|reflexivity]. specialize (Hc eq_refl). discriminate.
   - (* Arr *)
